@@ -100,7 +100,7 @@ def run_one(n, props, tier, procs):
         if ap.returncode != 0:
             return [{"name": n, "status": "patch-does-not-apply", "err": (ap.stdout + ap.stderr)[-300:]}]
         for p in props:
-            env = dict(os.environ, VERIF_REPO=scratch, VERIF_OUT=scratch, VERIF_PROCS=str(procs))
+            env = dict(os.environ, VERIF_REPO=scratch, VERIF_OUT=scratch, VERIF_PROCS=str(procs), VERIF_NOSHRINK="1")
             t0 = time.time()
             pr = subprocess.run([os.path.join(ROOT, "check"), p, "--tier", tier], capture_output=True, text=True, env=env)
             keys = [l.split("key=", 1)[1].split(": ", 1)[0] for l in pr.stdout.splitlines() if l.startswith("violation key=")]
